@@ -118,3 +118,52 @@ def concat(chunks):
     for c in chunks:
         out = out + as_symbytes(c)
     return out
+
+
+def udp_frames(ep, dgrams):
+    """-> list of (frame, ts, from_server)"""
+    from tlv.oracle import frames as F
+    out = []
+    for d in dgrams:
+        src = (ep.s_ip, ep.s_port, ep.s_mac) if d.from_server else (ep.c_ip, ep.c_port, ep.c_mac)
+        dst = (ep.c_ip, ep.c_port, ep.c_mac) if d.from_server else (ep.s_ip, ep.s_port, ep.s_mac)
+        seg = F.udp_segment(F.u16(src[1]), F.u16(dst[1]), d.data)
+        frame = F.ethernet(dst[2], src[2], ep.ipv == 6, F.ip_header(ep.ipv == 6, src[0], dst[0], 17, len(seg)) + seg)
+        out.append((frame, d.ts, d.from_server))
+    return out
+
+
+def run_quic(mods, frames, keylog_objs, portmap=None, keep_original_ports=True, metadata=False, quic_sessions=None):
+    main = mods["tlexport.main"]
+    Packet = mods["tlexport.packet"].Packet
+    main.server_ports[:] = [443, 44330, 443]
+    quic_sessions = [] if quic_sessions is None else quic_sessions
+    for frame, ts, *_ in frames:
+        p = Packet(frame, ts)
+        if p.udp_packet and len(p.tls_data) != 0:
+            main.handle_quic_packet(p, keylog_objs, quic_sessions, portmap or {}, keep_original_ports)
+    out = []
+    for s in quic_sessions:
+        out.extend(s.build_output(metadata))
+    return out, quic_sessions
+
+
+def udp_payloads(out, ep, server_port=None):
+    """(from_server, load, ts) of every UDP packet of the conversation, in output order."""
+    sp = ep.s_port if server_port is None else server_port
+    res = []
+    for item in out:
+        fr, ts = item
+        if not hasattr(fr, "layer"):
+            res.append((None, fr, ts))
+            continue
+        udp = fr.layer("UDP")
+        if udp is None:
+            continue
+        raw = fr.layer("Raw")
+        load = raw.load if raw is not None else b""
+        if udp.sport == sp and udp.dport == ep.c_port:
+            res.append((True, load, ts))
+        elif udp.sport == ep.c_port and udp.dport == sp:
+            res.append((False, load, ts))
+    return res
